@@ -71,9 +71,25 @@ def h_hull(cx, sp):
         cx.eq('only_active_points[%d]' % d, pt[d], comb)
 
 
-def h_ends(cx, sp, caller_edit=False):
+def h_ends(cx, sp, caller_edit=False, copy_first=False):
     obj, info = shapes.build(cx, sp, normalize_kv=False)
     sizes, P = info['sizes'], info['P']
+    if copy_first:
+        # a translated copy (default inplace=False) and a deep copy exist and are inspected BEFORE the source is
+        import copy as _copy
+        moved = geo.M('operations').translate(obj, cx.reals('tv', sp['dim']))
+        moved.bbox
+        [list(q) for q in moved.ctrlpts]
+        twin = _copy.deepcopy(obj)
+        geo.M('operations').scale(twin, 3, inplace=True)
+        twin.bbox
+        lo, hi = obj.bbox
+        view = [list(q) for q in obj.ctrlpts]
+        cx.eq('ctrlpts_view_of_source', view, P)
+        for d in range(sp['dim']):
+            for j in range(len(P)):
+                cx.ge('bbox_min<=P[%d][%d]' % (j, d), P[j][d], lo[d])
+                cx.ge('bbox_max>=P[%d][%d]' % (j, d), hi[d], P[j][d])
     if caller_edit:
         # the control net is replaced through the `ctrlpts` property and the caller goes on editing ITS list: whatever
         # the library kept (a copy or the list itself), the control-point view, the bounding box and the evaluated
@@ -231,6 +247,9 @@ def instances(tier):
                spec('surface', (1, 2), ((1,), (1,)), rational=False, kscaled=True)):
         out.append(inst('%s hull' % spec_name(sp), h_hull, timeout=1800, sp=sp))
         out.append(inst('%s ends' % spec_name(sp), h_ends, timeout=900, sp=sp))
+    for sp in (spec('curve', (2,), ((1,),), rational=True, scaled=True), spec('surface', (1, 2), ((), ()), rational=True, scaled=True),
+               spec('volume', (1, 1, 1), ((), (), ()), rational=True, scaled=True), spec('curve', (2,), ((1,),), rational=False, scaled=True)):
+        out.append(inst('%s ends after copies were inspected' % spec_name(sp), h_ends, timeout=2400, sp=sp, copy_first=True))
     for p in (1, 2, 3):
         sp = spec('curve', (p,), ((1,),), rational=(p != 2), lo=2, hi=5)
         out.append(inst('%s ends' % spec_name(sp), h_ends, sp=sp))
